@@ -46,6 +46,10 @@ Lemma expand_unop_table :
   expand_unop U_Neg = UCall n_neg /\ expand_unop U_Not = UCall n_not /\ expand_unop U_Add = UErase /\ expand_unop U_EqSelf = UEqSelf.
 Proof. vm_compute. repeat split; reflexivity. Qed.
 
+(* ast_expand swaps the operands exactly where the std function takes them reversed *)
+Lemma swap_agrees o : expand_swaps o = rq_reversed o.
+Proof. destruct o; vm_compute; reflexivity. Qed.
+
 (* one unfolding step of eval_r on an operator node *)
 Lemma eval_r_binop env o a b :
   eval_r env (ROp (expand_binop o) (if expand_swaps o then [b; a] else [a; b])) =
@@ -55,7 +59,7 @@ Lemma eval_r_binop env o a b :
   end.
 Proof.
   destruct (expand_binop_not_special o) as [N1 [N2 [N3 N4]]].
-  destruct (expand_swaps o) eqn:SW; cbn [eval_r]; rewrite N1, N2, N3, N4, binop_of_name_expand, SW; reflexivity.
+  rewrite swap_agrees. destruct (rq_reversed o) eqn:SW; cbn [eval_r]; rewrite N1, N2, N3, N4, binop_of_name_expand, SW; reflexivity.
 Qed.
 
 Lemma is_null_expand x : is_null (expand x) = is_null_lit x.
@@ -158,7 +162,7 @@ Proof.
   destruct H; [|reflexivity].
   destruct (is_eq_op o) as [ng|].
   - rewrite E, Eb, (N eq_refl), (Nb eq_refl). reflexivity.
-  - rewrite E, Eb. destruct (expand_swaps o); reflexivity.
+  - rewrite E, Eb. destruct (rq_reversed o); reflexivity.
 Qed.
 
 (* --- literals --- *)
@@ -208,14 +212,14 @@ Proof. destruct l, r; cbn; intros; try discriminate; split; congruence. Qed.
 
 Lemma eval_r_std env o a b :
   eval_r env (ROp (expand_binop o) [a; b]) =
-  (let (l, r) := if expand_swaps o then (b, a) else (a, b) in
+  (let (l, r) := if rq_reversed o then (b, a) else (a, b) in
    match is_eq_op o, is_null l || is_null r with
    | Some negated, true => option_map (fun v => eval_isnull v negated) (if is_null l then eval_r env r else eval_r env l)
    | _, _ => match eval_r env l, eval_r env r with Some x, Some y => eval_binop o x y | _, _ => None end
    end).
 Proof.
   destruct (expand_binop_not_special o) as [N1 [N2 [N3 N4]]].
-  cbn [eval_r]. rewrite N1, N2, N3, N4, binop_of_name_expand. destruct (expand_swaps o); reflexivity.
+  cbn [eval_r]. rewrite N1, N2, N3, N4, binop_of_name_expand. destruct (rq_reversed o); reflexivity.
 Qed.
 
 (* --- one folding step --- *)
@@ -233,7 +237,7 @@ Proof.
   { apply leqb_spec in E3. subst n.
     destruct args as [|[i|l|m a|cs] [|[j|r|m' a'|cs'] [|? ?]]]; try reflexivity.
     destruct (lit_same_kind l r) eqn:K; [|reflexivity].
-    change n_eq with (expand_binop B_Eq). rewrite eval_r_std. cbn [expand_swaps is_eq_op eval_r is_null].
+    change n_eq with (expand_binop B_Eq). rewrite eval_r_std. cbn [rq_reversed is_eq_op eval_r is_null].
     destruct l as [|x|x kx|a|s].
     - assert (r = LNull) by (apply (same_kind_null _ _ K); reflexivity). subst r. reflexivity.
     - destruct r; try discriminate K. cbn [orb]. cbn [eval_binop]. rewrite (proj1 (lit_eq_value _ _ K ltac:(discriminate))). reflexivity.
@@ -244,7 +248,7 @@ Proof.
   { apply leqb_spec in E4. subst n.
     destruct args as [|[i|l|m a|cs] [|[j|r|m' a'|cs'] [|? ?]]]; try reflexivity.
     destruct (lit_same_kind l r) eqn:K; [|reflexivity].
-    change n_ne with (expand_binop B_Ne). rewrite eval_r_std. cbn [expand_swaps is_eq_op eval_r is_null].
+    change n_ne with (expand_binop B_Ne). rewrite eval_r_std. cbn [rq_reversed is_eq_op eval_r is_null].
     destruct l as [|x|x kx|a|s].
     - assert (r = LNull) by (apply (same_kind_null _ _ K); reflexivity). subst r. reflexivity.
     - destruct r; try discriminate K. cbn [orb]. cbn [eval_binop]. rewrite (proj2 (lit_eq_value _ _ K ltac:(discriminate))). reflexivity.
@@ -262,7 +266,7 @@ Proof.
   destruct (leqb n n_coalesce) eqn:E7.
   { apply leqb_spec in E7. subst n.
     destruct args as [|[i|[| | | |]|m a|cs] [|x [|? ?]]]; try reflexivity.
-    change n_coalesce with (expand_binop B_Coalesce). rewrite eval_r_std. cbn [expand_swaps is_eq_op eval_r lit_val].
+    change n_coalesce with (expand_binop B_Coalesce). rewrite eval_r_std. cbn [rq_reversed is_eq_op eval_r lit_val].
     destruct (eval_r env x); reflexivity. }
   reflexivity.
 Qed.
@@ -330,7 +334,7 @@ Proof.
   destruct args as [|v [|lo [|hi [|? ?]]]]; try reflexivity.
   unfold seval_in. rewrite keep_gte, keep_lte, eval_r_in.
   change n_gte with (expand_binop B_Gte). change n_lte with (expand_binop B_Lte).
-  destruct (is_null lo), (is_null hi); rewrite ?eval_r_and_in, ?eval_r_std; cbn [expand_swaps is_eq_op eval_binop eval_r lit_val];
+  destruct (is_null lo), (is_null hi); rewrite ?eval_r_and_in, ?eval_r_std; cbn [rq_reversed is_eq_op eval_binop eval_r lit_val];
     destruct (eval_r env v), (eval_r env lo), (eval_r env hi); reflexivity.
 Qed.
 
